@@ -24,7 +24,7 @@ use poulpy_core::{
 };
 use poulpy_hal::{
     api::{ScratchOwnedAlloc, ScratchOwnedBorrow},
-    layouts::{Module, NoiseInfos, ScratchOwned, ZnxInfos, ZnxView, ZnxViewMut},
+    layouts::{DeviceBuf, Module, NoiseInfos, ScratchOwned, ZnxInfos, ZnxView, ZnxViewMut},
     source::Source,
 };
 use dashu_int::IBig;
@@ -312,7 +312,7 @@ fn encode_torus(v: &Dyadic, b: usize, size: usize) -> Vec<i64> {
     digits
 }
 
-fn run_br<B: FullBackend>(m: &Module<B>, c: &BrCase) -> Verdict {
+pub fn run_br<B: FullBackend>(m: &Module<B>, c: &BrCase, c12: bool) -> Verdict {
     let n = m.n();
     let ext = 1usize << c.ext_log;
     let domain = n * ext;
@@ -398,7 +398,60 @@ fn run_br<B: FullBackend>(m: &Module<B>, c: &BrCase) -> Verdict {
         let limbs = gen_column(VClass::Uniform, b, n, c.res_size as usize, c.seed ^ (0xB0 + col as u64));
         set_column(res.data_mut(), col, &limbs);
     }
-    brkp.execute(m, &mut res, &lwe, &lut, scratch.borrow());
+    // the call under test runs on a garbage-filled scratch of its own (results must not depend on what the scratch held)
+    let q_bytes = BlindRotationKeyPrepared::<DeviceBuf<B>, CGGI, B>::execute_tmp_bytes(m, block, ext, &res_lay, &brk_lay);
+    {
+        let mut ample = crate::c12b::Win::new(8 * q_bytes + (1 << 20), c.seed ^ 0x5C);
+        brkp.execute(m, &mut res, &lwe, &lut, ample.scratch::<B>());
+    }
+    if c12 {
+        // C12: exact window of the queried size, two garbage fills, against the run with ample scratch
+        use pzv_common::driver::{guarded, panic_sig};
+        let kind = if block == 1 && ext == 1 { "standard" } else if ext > 1 { "block_binary_extended" } else { "block_binary" };
+        let name = format!("blind_rotation_execute[{kind}]");
+        // (a) content independence on ample scratch (also for the shapes whose exact-size run is a recorded finding)
+        {
+            let mut r2 = GLWE::alloc_from_infos(&res_lay);
+            for col in 0..=rank {
+                let limbs = gen_column(VClass::Uniform, b, n, c.res_size as usize, c.seed ^ (0xC0 + col as u64));
+                set_column(r2.data_mut(), col, &limbs);
+            }
+            let mut ample = crate::c12b::Win::new(8 * q_bytes + (1 << 20), c.seed ^ 0xA7A7_A7A7);
+            if let Err(p) = guarded(|| brkp.execute(m, &mut r2, &lwe, &lut, ample.scratch::<B>())) {
+                return Verdict::fail(format!("{name}|result-depends-on-scratch-or-stale-content"), format!("backend={} {name}: panics on ample scratch filled with a second garbage pattern (the first run passed): {p}\ncase={c:?}", c.be.name()));
+            }
+            if r2.data().raw() != res.data().raw() {
+                return Verdict::fail(format!("{name}|result-depends-on-scratch-or-stale-content"), format!("backend={} {name}: two runs on ample scratch with different garbage (and different prior content of the destination) give different results\ncase={c:?}", c.be.name()));
+            }
+        }
+        // (b) exact window
+        for fill in [0x1111_2222_3333_4444u64, 0xDEAD_BEEF_0BAD_F00D] {
+            let mut r2 = GLWE::alloc_from_infos(&res_lay);
+            for col in 0..=rank {
+                let limbs = gen_column(VClass::Uniform, b, n, c.res_size as usize, c.seed ^ (0xB0 + col as u64) ^ fill);
+                set_column(r2.data_mut(), col, &limbs);
+            }
+            let mut win = crate::c12b::Win::new(q_bytes, fill ^ c.seed);
+            match guarded(|| brkp.execute(m, &mut r2, &lwe, &lut, win.scratch::<B>())) {
+                Err(p) => {
+                    return Verdict::fail(
+                        format!("{name}|exact-scratch-panic|{}", panic_sig(&p)),
+                        format!("backend={} {name}: panicked with a scratch window of exactly the {q_bytes} bytes of execute_tmp_bytes(block_size={block}, extension_factor={ext}): {p}\ncase={c:?}", c.be.name()),
+                    );
+                }
+                Ok(()) => {
+                    if !win.intact() {
+                        return Verdict::fail(format!("{name}|guard-damaged"), format!("backend={} {name}: bytes outside the exact scratch window were modified\ncase={c:?}", c.be.name()));
+                    }
+                    if r2.data().raw() != res.data().raw() {
+                        return Verdict::fail(format!("{name}|result-depends-on-scratch-or-stale-content"), format!("backend={} {name}: the result with an exact garbage-filled window (and a different prior content of the destination) differs from the run with ample scratch\ncase={c:?}", c.be.name()));
+                    }
+                }
+            }
+        }
+        let cl = [c.be.name(), "blind_rotation_execute", kind];
+        return Verdict::pass(q_bytes > 0, &cl);
+    }
     let got = phase_vals(res.data(), &s_glwe, b);
     // worst-case noise: n_lwe external products, each multiplied by (X^a - 1)
     let rl = Lay { b, size: c.res_size as usize };
@@ -505,10 +558,16 @@ fn run_br<B: FullBackend>(m: &Module<B>, c: &BrCase) -> Verdict {
 pub fn test_br(c0: &BrCase) -> Verdict {
     let mut c = c0.clone();
     br_adapt(&mut c);
-    with_backend!(c.be, c.log_n, |m| run_br(m, &c))
+    with_backend!(c.be, c.log_n, |m| run_br(m, &c, false))
 }
 
-fn br_strategy() -> BoxedStrategy<BrCase> {
+pub fn test_br_c12(c0: &BrCase) -> Verdict {
+    let mut c = c0.clone();
+    br_adapt(&mut c);
+    with_backend!(c.be, c.log_n, |m| run_br(m, &c, true))
+}
+
+pub fn br_strategy() -> BoxedStrategy<BrCase> {
     (
         (be_strategy(), 3u8..=6, prop_oneof![3 => Just(0u8), 1 => Just(1u8), 1 => Just(2u8), 1 => Just(3u8)], 1u8..=4, 1u8..=8, 0u8..4, 8u8..=20, 2u8..=24, 1u8..=4),
         (1u8..=5, 1u8..=3, 1u8..=2, 1u8..=3, 1u8..=2, dist_strategy(), any::<bool>(), any::<u32>(), any::<u8>(), any::<bool>(), any::<u64>()),
